@@ -712,6 +712,16 @@ class SuperSpace(Space):
         return SuperSpace(self.oper.scalar_like(), rep=self.superrep)
 
 
+def _memory_order(steps, sizes):
+    """
+    Order of the dimension indices from the slowest to the fastest varying one.
+    1-dimensional subsystems have the same step as their neighbour: ties are
+    resolved so that the larger subsystem, then the first one, comes first.
+    """
+    steps = np.asarray(steps)
+    return np.lexsort((-steps * np.asarray(sizes), -steps))
+
+
 class MetaDims(type):
     def __call__(cls, *args: DimensionLike, rep: str = None) -> "Dimensions":
         if len(args) == 1 and isinstance(args[0], Dimensions):
@@ -862,8 +872,8 @@ class Dimensions(metaclass=MetaDims):
         stepr = self.from_.step()
         flatr = self.from_.flat()
         return tuple(np.concatenate([
-            np.array(flatl)[np.argsort(stepl)[::-1]],
-            np.array(flatr)[np.argsort(stepr)[::-1]],
+            np.array(flatl)[_memory_order(stepl, flatl)],
+            np.array(flatr)[_memory_order(stepr, flatr)],
         ]))
 
     def _get_tensor_perm(self):
@@ -874,9 +884,11 @@ class Dimensions(metaclass=MetaDims):
         # dims_to_tensor_perm
         stepl = self.to_.step()
         stepr = self.from_.step()
+        flatl = self.to_.flat()
+        flatr = self.from_.flat()
         return list(np.argsort(np.concatenate([
-            np.argsort(stepl)[::-1],
-            np.argsort(stepr)[::-1] + len(stepl)
+            _memory_order(stepl, flatl),
+            _memory_order(stepr, flatr) + len(stepl)
         ])))
 
     def replace_superrep(self, super_rep: str) -> "Dimensions":
